@@ -408,6 +408,9 @@ func RunCell(c *Cell) (res *Result) {
 		if c.Host.StartTimeoutNs > 0 {
 			cfg.StartTimeout = time.Duration(c.Host.StartTimeoutNs)
 		}
+		if c.Host.Allowed != nil {
+			cfg.AllowedProtocols = []plugin.Protocol{} // an explicit list, possibly empty (nothing allowed), is not the nil default
+		}
 		for _, a := range c.Host.Allowed {
 			cfg.AllowedProtocols = append(cfg.AllowedProtocols, plugin.Protocol(a))
 		}
